@@ -5,6 +5,7 @@ import (
 	"fmt"
 	"os"
 	"strings"
+	"time"
 
 	"github.com/cometbft/cometbft/abci/types"
 
@@ -42,6 +43,9 @@ type c01concPlan struct {
 	Pruner  bool
 	Foreign bool
 	Keep    uint64
+	// Propose: the replica under test is the block's proposer (PrepareProposal and the cached
+	// results run under concurrent activity); the reference replica validates the block afterwards.
+	Propose bool
 }
 
 func c01concPlans(thorough bool) []c01concPlan {
@@ -52,8 +56,12 @@ func c01concPlans(thorough bool) []c01concPlan {
 		{Name: "block(transfer) | checktx+estimate+query", Backend: "badger", Warm: warm[:2], Block: "transfer(a0->a1,10,fee2)", Path: chain.PathProcess, Foreign: true, Keep: 2},
 		{Name: "block(reclaim) | checktx+estimate+query", Backend: "pathbadger", Warm: warm[:2], Block: "reclaim(a0<-e0,100sh)", Path: chain.PathReplay, Foreign: true, Keep: 2},
 	}
+	plans = append(plans,
+		c01concPlan{Name: "proposer: block(transfer) | checktx+estimate+query", Backend: "badger", Warm: warm[:2], Block: "proposer=#1+transfer(a0->a1,10,fee2)", Path: chain.PathPropose, Foreign: true, Keep: 2, Propose: true},
+	)
 	if thorough {
 		plans = append(plans,
+			c01concPlan{Name: "proposer: block(transfer) | pruner", Backend: "pathbadger", Warm: warm, Block: "proposer=#1+transfer(a0->a1,10,fee2)", Path: chain.PathPropose, Pruner: true, Keep: 1, Propose: true},
 			c01concPlan{Name: "block(burn) | pruner | checktx+estimate+query", Backend: "badger", Warm: warm, Block: "burn(a1,7,fee1)", Path: chain.PathProcess, Pruner: true, Foreign: true, Keep: 1},
 			c01concPlan{Name: "block(escrow) | pruner | checktx+estimate+query", Backend: "pathbadger", Warm: warm, Block: "escrow(a0->e0,50)", Path: chain.PathReplay, Pruner: true, Foreign: true, Keep: 1},
 		)
@@ -148,9 +156,12 @@ func c01concInstance(w *world, alpha []letter, pl c01concPlan) (*conc.Instance, 
 		return fail("unknown letter %s", pl.Block)
 	}
 	blk := b.buildBlock(l)
-	refRes := ref.Exec(blk, chain.PathPropose, nil)
-	if refRes.Panic != "" || !refRes.Accepted {
-		return fail("reference replica failed on the block: %s", refRes.Panic)
+	var refRes *chain.Result
+	if !pl.Propose {
+		refRes = ref.Exec(blk, chain.PathPropose, nil)
+		if refRes.Panic != "" || !refRes.Accepted {
+			return fail("reference replica failed on the block: %s", refRes.Panic)
+		}
 	}
 	// foreign transaction: a valid transfer by a1 (not part of the block)
 	ftx := transaction.NewTransaction(ref.Nonce(chain.Addr(w.keys.Accounts[1])), chain.Fee(1, 10000), "staking.Transfer", w.stakingTxs()[0].Body)
@@ -217,6 +228,13 @@ func c01concInstance(w *world, alpha []letter, pl c01concPlan) (*conc.Instance, 
 		}
 		if got == nil {
 			return "block executor did not finish"
+		}
+		if pl.Propose {
+			if got.Panic != "" || !got.Accepted {
+				return "proposer with concurrent activity failed to prepare / execute its block: " + got.Panic
+			}
+			refRes = ref.Exec(blk, chain.PathProcess, nil)
+			got.PreparedTxs = nil
 		}
 		if a, c := resultKey(got), resultKey(refRes); a != c {
 			return fmt.Sprintf("replica with concurrent activity computed {%s}, the reference replica running alone {%s}", a, c)
@@ -321,6 +339,10 @@ func runC01Conc(r *ev.Run) {
 		conc.RaceRun(r, c01concScenarios(r), it)
 		r.Set("race_rule", "free-running race-detector pass over the concurrency scenarios of the conc phase (block executor, pruner, CheckTx / EstimateGas / historical query as ordinary goroutines in a -race build)")
 		r.Finish()
+	}
+	if r.Thorough() && r.Deadline.IsZero() {
+		// internal deadline: an unfinished enumeration is reported as exhaustive=false, not as a failure
+		r.Deadline = r.Start.Add(14 * time.Minute)
 	}
 	r.Fork(ev.Workers())
 	conc.Explore(r, "chainmc-conc", c01concScenarios(r))
